@@ -213,10 +213,11 @@ def run_driver(name, cases, timeout=3600):
 # known findings
 
 def load_known(pid):
-    p = os.path.join(ROOT, "known_findings.json")
-    if not os.path.exists(p):
-        return []
-    return [k for k in json.load(open(p)) if k.get("property") == pid]
+    out = []
+    for p in [os.path.join(ROOT, "known_findings.json")] + sorted(glob.glob(os.path.join(ROOT, "known_findings.d", "*.json"))):
+        if os.path.exists(p):
+            out += [k for k in json.load(open(p)) if k.get("property") == pid]
+    return out
 
 
 def match_known(known, failure):
